@@ -737,7 +737,9 @@ class _Unmarshaller:
 def _read(self, n):
     pos = self.bufpos
     newpos = pos + n
-    if newpos > len(self.bufstr):
+    # A negative size would move the read position backwards and make the
+    # reader parse the same bytes again and again.
+    if n < 0 or newpos > len(self.bufstr):
         raise EOFError
     ret = self.bufstr[pos:newpos]
     self.bufpos = newpos
